@@ -493,7 +493,8 @@ Section Potential.
   Definition Ps (l : codes) :=
     (forall s o s', exec_seq c l s = (o, s') -> R c s s') /\
     (forall k s o s', exec_cbs c k l s = (o, s') -> R c s s') /\
-    (forall s o s', exec_gen c l s = (o, s') -> R c s s').
+    (forall s o s', exec_gen c l s = (o, s') -> R c s s') /\
+    (forall s o s', exec_async c l s = (o, s') -> R c s s').
 
   Lemma potential_all : (forall i, Pi i) /\ (forall p, Pc p) /\ (forall l, Ps l).
   Proof.
@@ -516,7 +517,7 @@ Section Potential.
       apply IHl in E. destruct k; repeat brk; fin_R.
     - (* IForOf *) intros r l [IHl _] s o s' H. simpl in H. repeat brk;
         match goal with E : exec_seq c l _ = _ |- _ => apply IHl in E end; fin_R.
-    - (* IGen *) intros l [_ [_ IHl]] s o s' H. simpl in H. eapply IHl; eauto.
+    - (* IGen *) intros l [_ [_ [IHl _]]] s o s' H. simpl in H. eapply IHl; eauto.
     - (* IGenRet *) intros pre IHp fin IHf s o s' H. simpl in H.
       destruct (exec_c c pre _) as [o1 s3] eqn:E1. apply IHp in E1.
       assert (R0 : R c s s3).
@@ -537,8 +538,8 @@ Section Potential.
           eapply R_trans; [exact R1 |]. eapply R_trans; [exact E2 | apply same_R; exact H].
         * apply gen_intr_same in H. eapply R_trans; [exact R1 | apply same_R; exact H].
       + apply gen_intr_same in H. eapply R_trans; [exact R0 | apply same_R; exact H].
-    - (* IAsync *) intros pre IHp post _ s o s' H. simpl in H. repeat brk;
-        match goal with E : exec_c c pre _ = _ |- _ => apply IHp in E end; fin_R.
+    - (* IAsyncN *) intros pres [_ [_ [_ IH]]] posts _ s o s' H. simpl in H. repeat brk;
+        match goal with E : exec_async c pres _ = _ |- _ => apply IH in E end; fin_R.
     - (* IJob *) intros b _ s o s' H. simpl in H. inversion H; subst. fin_R.
     - (* CNil *) intros s o s' H. simpl in H.
       destruct (flag (tick c s)) eqn:F; inversion H; subst.
@@ -553,8 +554,8 @@ Section Potential.
         { eapply R_trans; [apply R_tick |]. eapply R_trans; [apply R_bump_tick; assumption | exact E]. }
         destruct o1; try (inversion H; subst; assumption).
         apply IHp in H. eapply R_trans; eassumption.
-    - (* SNil *) split; [| split]; intros; simpl in *; inversion H; subst; apply R_refl.
-    - (* SCons *) intros b IHb l [IH1 [IH2 IH3]]. split; [| split].
+    - (* SNil *) split; [| split; [| split]]; intros; simpl in *; inversion H; subst; apply R_refl.
+    - (* SCons *) intros b IHb l [IH1 [IH2 [IH3 IH4]]]. split; [| split; [| split]].
       + intros s o s' H. simpl in H. repeat brk;
           repeat match goal with
           | E : exec_c c b _ = _ |- _ => apply IHb in E
@@ -570,6 +571,11 @@ Section Potential.
           | E : exec_c c b _ = _ |- _ => apply IHb in E
           | E : exec_gen c l _ = _ |- _ => apply IH3 in E
           end; fin_R.
+      + intros s o s' H. simpl in H. repeat brk;
+          repeat match goal with
+          | E : exec_c c b _ = _ |- _ => apply IHb in E
+          | E : exec_async c l _ = _ |- _ => apply IH4 in E
+          end; fin_R.
   Qed.
 End Potential.
 
@@ -579,8 +585,8 @@ Section PotentialTop.
 
   Lemma run_job_R : forall j s o s', run_job c j s = (o, s') -> R c s s'.
   Proof.
-    intros j s o s' H. destruct j; simpl in H; repeat brk;
-      match goal with E : exec_c c _ _ = _ |- _ => apply Hc in E end; fin_R.
+    intros j s o s' H. destruct j as [b | [| b rest]]; simpl in H; repeat brk;
+      try match goal with E : exec_c c _ _ = _ |- _ => apply Hc in E end; fin_R.
   Qed.
 
   Lemma run_jobs_R : forall js s o s', run_jobs c js s = (o, s') -> R c s s'.
